@@ -226,3 +226,64 @@ Fixpoint enc_hops (depth : nat) (f : form) : list byte :=
   | S O => enc_uleb (form_code f)
   | S d => enc_uleb indirect_code ++ enc_hops d f
   end.
+
+(* ---- what normalisation by attribute name must preserve ---- *)
+(* the numeric payload / target of a value (constants and offsets as integers) *)
+Inductive payload : Type := PInt (z : Z) | PBytes (l : list byte) | PFlag (b : bool).
+
+Definition payload_of (v : attr_value) : payload :=
+  match v with
+  | VBlock b | VExprloc b | VString b => PBytes b
+  | VFlag f => PFlag f
+  | VSdata z => PInt z
+  | VAddr n | VData1 n | VData2 n | VData4 n | VData8 n | VData16 n | VUdata n
+  | VSecOffset n | VDebugAddrBase n | VDebugAddrIndex n | VUnitRef n | VDebugInfoRef n
+  | VDebugInfoRefSup n | VDebugLineRef n | VLocationListsRef n | VDebugLocListsBase n
+  | VDebugLocListsIndex n | VDebugMacinfoRef n | VDebugMacroRef n | VRangeListsRef n
+  | VDebugRngListsBase n | VDebugRngListsIndex n | VDebugTypesRef n | VDebugStrRef n
+  | VDebugStrRefSup n | VDebugStrOffsetsBase n | VDebugStrOffsetsIndex n | VDebugLineStrRef n
+  | VEncoding n | VDecimalSign n | VEndianity n | VAccessibility n | VVisibility n | VVirtuality n
+  | VLanguage n | VAddressClass n | VIdentifierCase n | VCallingConvention n | VInline n
+  | VOrdering n | VFileIndex n | VDwoId n => PInt (Z.of_N n)
+  end.
+
+(* the numbers inside a value fit the field types of gimli's AttributeValue (u8/u16/u32/u64/u128/i64) *)
+Definition value_in_range (v : attr_value) : Prop :=
+  match v with
+  | VBlock _ | VExprloc _ | VString _ | VFlag _ => True
+  | VSdata z => (- 9223372036854775808 <= z < 9223372036854775808)%Z
+  | VData1 n | VEncoding n | VDecimalSign n | VEndianity n | VAccessibility n | VVisibility n
+  | VVirtuality n | VIdentifierCase n | VCallingConvention n | VInline n | VOrdering n => n < 256
+  | VData2 n | VLanguage n => n < two16
+  | VData4 n => n < two32
+  | VData16 n => n < 2 ^ 128
+  | VAddr n | VData8 n | VUdata n
+  | VSecOffset n | VDebugAddrBase n | VDebugAddrIndex n | VUnitRef n | VDebugInfoRef n
+  | VDebugInfoRefSup n | VDebugLineRef n | VLocationListsRef n | VDebugLocListsBase n
+  | VDebugLocListsIndex n | VDebugMacinfoRef n | VDebugMacroRef n | VRangeListsRef n
+  | VDebugRngListsBase n | VDebugRngListsIndex n | VDebugTypesRef n | VDebugStrRef n
+  | VDebugStrRefSup n | VDebugStrOffsetsBase n | VDebugStrOffsetsIndex n | VDebugLineStrRef n
+  | VAddressClass n | VFileIndex n | VDwoId n => n < two64
+  end.
+
+(* ---- reading a constant as unsigned / signed ---- *)
+(* two's complement reading of an n-bit pattern *)
+Definition twos (bits : N) (n : N) : Z :=
+  if n <? 2 ^ (bits - 1) then Z.of_N n else (Z.of_N n - Z.of_N (2 ^ bits))%Z.
+
+(* DW_FORM_data<n> carries no sign: unsigned reading zero-extends, signed reading sign-extends from
+   the form's width; sdata/udata convert only when the value is representable *)
+Definition unsigned_reading (v : attr_value) : option N :=
+  match v with
+  | VData1 n | VData2 n | VData4 n | VData8 n | VUdata n => Some n
+  | VSdata z => if (0 <=? z)%Z then Some (Z.to_N z) else None
+  | _ => None
+  end.
+Definition signed_reading (v : attr_value) : option Z :=
+  match v with
+  | VData1 n => Some (twos 8 n) | VData2 n => Some (twos 16 n)
+  | VData4 n => Some (twos 32 n) | VData8 n => Some (twos 64 n)
+  | VSdata z => Some z
+  | VUdata n => if n <? two63 then Some (Z.of_N n) else None
+  | _ => None
+  end.
